@@ -101,7 +101,7 @@ func (e *endpoint) has(body []byte, only200 bool) bool {
 
 func runN2H(tier string) partResult {
 	res := partResult{Outcomes: map[string]int{}, Extra: map[string]int{}}
-	httpclient = &http.Client{Transport: http_api.NewDeadlineTransport(2*time.Second, 5*time.Second), Timeout: 5 * time.Second}
+	httpclient = &http.Client{Transport: http_api.NewDeadlineTransport(30*time.Second, 60*time.Second), Timeout: 60 * time.Second}
 	codes := []int{200, 201, 204, 301, 400, 404, 500, 503, 0}
 	maxLen := 3
 	if tier == "thorough" {
